@@ -37,6 +37,8 @@ class Withdraw:
             cv = P.val_call(w, w.body, cb)
             me = common.mapped_element(cv[4][0])
             if me is None:
+                me = self.direct_element(ctx, cv[4][0])
+            if me is None:
                 self.problems.append((cb, "refund asset is not element k of pools.iter().map(..).collect(): unrecognised-idiom"))
                 continue
             work.append((cb, me, w))
@@ -68,17 +70,21 @@ class Withdraw:
                         continue
                     work.append((ccalls[0], me, pc))
         for cb, me, holder in work:
-            clo, k, src = me
+            clo, k, src = me[:3]
             self.pay_fn[k] = (holder, cb)
-            cf = P.fn(clo[2])
-            ex = common.exit_sites(P, cf)
-            if len(ex) != 1:
-                self.problems.append((cb, "refund closure has %d exits" % len(ex)))
-                continue
-            ret = ex[0][3]
+            if clo == "direct":
+                # `pools.map(|pool| Asset { .. })` on the fixed-size array: element k is already the closure's value for pools[k]
+                cf, ret, item = w, me[3], me[4]
+            else:
+                cf = P.fn(clo[2])
+                ex = common.exit_sites(P, cf)
+                if len(ex) != 1:
+                    self.problems.append((cb, "refund closure has %d exits" % len(ex)))
+                    continue
+                ret = ex[0][3]
+                item = ("param", cf.path, 1)
             if ret[0] == "call":
                 ret = common.inline_helpers(P, ret)        # a plain constructor (`Asset::new(info, amount)`) is its aggregate
-            item = ("param", cf.path, 1)
             amt_v = proj(ret, ("f", "amount"))
             info_v = proj(ret, ("f", "info"))
             r = self.T.var("r%d" % k)
@@ -94,6 +100,26 @@ class Withdraw:
                 continue
             info_roots = set(ctx.roots(info_v))
             self.refunds[k] = (cb, term, info_roots, cf, src, r)
+            self.item_info = getattr(self, "item_info", {})
+            self.item_info[k] = set(ctx.roots(proj(item, ("f", "info"))))
+
+    def direct_element(self, ctx, v):
+        """The payout asset is an aggregate computed from exactly one element pools[k] of the queried reserves (an element of
+        `pools.map(|pool| ..)` on the fixed-size array, which the value graph expands): ('direct', k, pools, value, pools[k])."""
+        while v[0] == "call" and isinstance(v[3], str) and common.transparent_arg(v[3]) == 0 and common.last_seg(v[3]) not in ("iter", "into_iter", "index"):
+            v = v[4][0]
+        if not (v[0] == "agg" and v[1] == "adt"):
+            return None
+        hits = set()
+        for x in common.walk(v):
+            if x[0] == "proj" and x[2][0] == "i" and isinstance(x[2][1], int):
+                rs = set(ctx.roots(x[1]))
+                if len(rs) == 1 and re.match(r"^C:%s@" % ctx.N.rx("query_pools"), list(rs)[0]):
+                    hits.add((x[2][1], x[1], x))
+        if len({h[0] for h in hits}) != 1:
+            return None
+        k, src, item = sorted(hits, key=lambda h: str(h))[0]
+        return ("direct", k, src, v, item)
 
     def translate_with_supply(self, v, env):
         """Bind every `query_token_info(..).total_supply` value to S, then translate."""
@@ -208,7 +234,7 @@ def _run(ctx):
         rec = set(ctx.roots(cv[4][1]))
         if rec != {P_(w, wd.sender_i)}:
             r3.fail("C04.R3:recipient:%d" % k, w.path, common.span_of_block_term(w, cb), "refund %d goes to %s, expected the withdrawing holder" % (k, sorted(rec)))
-        elif info_roots != {P_(cf, 1, ".info")}:
+        elif info_roots != getattr(wd, "item_info", {}).get(k, {P_(cf, 1, ".info")}):
             r3.fail("C04.R3:asset:%d" % k, cf.path, cf.span, "refund %d is denominated in %s, expected the pool asset it was computed from" % (k, sorted(info_roots)))
         else:
             r3.site("refund %d: asset = pools[%d].info, recipient = sender, via %s" % (k, k, wd.tc.path))
